@@ -511,10 +511,97 @@ pub fn plan(tier: &str) -> Vec<SubRun> {
     v
 }
 
+/// Staging names are random: canonicalise them for comparisons across processes.
+fn canon_image(im: &Image) -> Image {
+    let mut out = Image { dirs: im.dirs.clone(), files: Default::default() };
+    let mut staged: Vec<&Vec<u8>> = Vec::new();
+    for (p, d) in &im.files {
+        if p.starts_with("staging/") {
+            staged.push(d);
+        } else {
+            out.files.insert(p.clone(), d.clone());
+        }
+    }
+    staged.sort();
+    for (i, d) in staged.into_iter().enumerate() {
+        out.files.insert(format!("staging/#{i}"), d.clone());
+    }
+    out
+}
+
+/// Child entry `cvh kill-child <dir> <n> <async> <ops-json> <k>`: run the history and really die (`_exit`) before mutating call k.
+pub fn kill_child(args: &[String]) {
+    let dir = std::path::PathBuf::from(&args[0]);
+    let cfg = Cfg { n: args[1].parse().unwrap(), async_mode: args[2] == "true" };
+    let opsq: Vec<Op> = serde_json::from_str(&args[3]).unwrap();
+    let k: u64 = args[4].parse().unwrap();
+    let cnt = Arc::new(std::sync::atomic::AtomicU64::new(0));
+    let c2 = cnt.clone();
+    shim::arm(
+        &dir,
+        Arc::new(move |ev, ph| {
+            if let Phase::Pre = ph {
+                if ev.mutating && c2.fetch_add(1, std::sync::atomic::Ordering::SeqCst) + 1 == k {
+                    unsafe { libc::_exit(99) };
+                }
+            }
+            0
+        }),
+    );
+    shim::participate(true);
+    if let Ok(mut st) = Store::<String>::open(&dir, cfg.config()) {
+        for op in &opsq {
+            let _ = st.apply(op);
+        }
+        st.close();
+    }
+    unsafe { libc::_exit(0) };
+}
+
+/// Bind the snapshot mechanism to reality: for every k a child process running the same history is really
+/// killed before its k-th mutating call; its directory must equal snapshot k-1 byte for byte.
+pub fn validate_by_killing(cfg: &Cfg, opsq: &[Op], res: &mut WorkerResult) {
+    let dir = util::fresh_dir("kv");
+    let hist = run_history::<String>(&dir, cfg, &[], opsq);
+    util::rm_rf(&dir);
+    let exe = std::env::current_exe().unwrap();
+    let ops_json = serde_json::to_string(opsq).unwrap();
+    for k in 1..hist.snaps.len() {
+        let d = util::fresh_dir("kc");
+        let st = std::process::Command::new(&exe)
+            .args(["kill-child", d.to_str().unwrap(), &cfg.n.to_string(), &cfg.async_mode.to_string(), &ops_json, &k.to_string()])
+            .status()
+            .expect("spawn kill child");
+        if st.code() != Some(99) {
+            eprintln!("MACHINERY: kill child for k={k} exited with {st:?} instead of dying at the call");
+            std::process::exit(2);
+        }
+        let got = canon_image(&Image::load(&d));
+        let want = canon_image(&hist.snaps[k - 1].image);
+        if got.files != want.files {
+            eprintln!("MACHINERY: snapshot {k} of `{}` differs from the directory of a process really killed there: {}", ops::show_seq::<String>(opsq), want.diff(&got));
+            std::process::exit(2);
+        }
+        util::rm_rf(&d);
+        res.count("validated", 1);
+    }
+}
+
 pub fn run(tier: &str, slice: (u64, u64), seed: u64) -> WorkerResult {
     shim::require();
     let mut res = WorkerResult::new("crash");
     let mut j = 0u64;
+    // every worker validates the snapshot mechanism on one history of its own before trusting it
+    {
+        let alpha = ops::alphabet("crash");
+        let total = ops::seq_count(&alpha, 3);
+        let idx = (slice.0 * 37 + seed * 11 + 5) % total;
+        let cfg = Cfg { n: [1, 2, 10_000][(slice.0 % 3) as usize], async_mode: false };
+        validate_by_killing(&cfg, &ops::seq_of(&alpha, 3, idx), &mut res);
+        if slice.0 == 0 {
+            res.completed.push("snapshot mechanism validated: per worker one depth-3 history, a child process really killed (_exit) before every mutating call, directory == snapshot".into());
+        }
+    }
     for sr in plan(tier) {
         let total = ops::seq_count(&sr.alphabet, sr.depth);
         for i in 0..total {
